@@ -27,6 +27,8 @@ import (
 
 	"rare/pkg/expressions"
 
+	"os"
+	"path/filepath"
 	"verifharness/internal/reg"
 	"verifharness/internal/run"
 )
@@ -524,6 +526,16 @@ func (h *harness) runCase(cs *Case) {
 		h.runDepth(cs)
 	case "cli-rt", "cli-tree", "cli-mut":
 		h.runCLI(cs)
+	case "cli-flag":
+		var si, mi int
+		fmt.Sscanf(cs.Expected, "%d/%d", &si, &mi)
+		if si < len(flagSites) && mi < len(malformedTemplates) {
+			dir := filepath.Join(h.c.WorkDir, "flags")
+			os.MkdirAll(dir, 0o755)
+			in := filepath.Join(dir, "in.log")
+			os.WriteFile(in, []byte("alpha 1\nbeta 2\nalpha 3\n"), 0o644)
+			h.runFlag(flagSites[si], malformedTemplates[mi].t, malformedTemplates[mi].why, in, cs)
+		}
 	default:
 		h.c.Inconclusive("unknown case kind " + cs.Kind)
 	}
@@ -550,6 +562,7 @@ func Run(c *run.Ctx) {
 	h.roundTrips()
 	h.trees()
 	h.cli()
+	h.flagTemplates()
 }
 
 // ---------------------------------------------------------------- case lists
